@@ -437,6 +437,11 @@ def run(prop, tier, seed, rep, extra_inputs=None):
         rep.add_model(res, STEP_D[prop])
         if not res["ok"]:
             raise core.ToolError(f"{STEP_D[prop]} fails on the specification itself: {res['violated']} {res['output_tail'][-400:]}")
+    if prop in ("C02", "C04", "C10"):
+        # Level I of the decoder: deku's bit machine and the read programs of every shape (DekuBits.tla) - its Level-A
+        # lemmas by TLC, its predicted read/seek calls against the real decoder's (drift only)
+        import bits_checks
+        bits_checks.run_binding(rep, random.Random(seed * 7 + 1))
     inputs = GENERATORS[prop](rng, tier)
     if extra_inputs:
         inputs += extra_inputs
